@@ -289,6 +289,35 @@ func c03Scenarios(tier string) []*core.Scenario {
 	if tier == "thorough" {
 		scs = append(scs, mk("pair_then_label", 2, []int64{0x7c00}))
 	}
+	// two statements of the same shape whose immediates / displacements fall on different sides of an
+	// encoding boundary (a size remembered from the first must not be reused for the second)
+	shapes := []string{"ADD CX,{}", "SUB ECX,{}", "CMP BX,{}", "AND EDX,{}", "OR WORD [BX],{}", "XOR DWORD [EBX],{}", "MOV AX,[BX+{}]", "MOV [SI+{}],CL", "MOV EAX,[EBX+{}]", "ADD AX,{}", "MOV CX,{}", "CMP BYTE [BX+{}],1"}
+	vals := []string{"1", "127", "128", "-128", "-129", "0x200"}
+	scs = append(scs, &core.Scenario{
+		Name: "same_shape_pairs", Bound: -1,
+		Rule:   "12 statement shapes x every ordered pair of 6 values on both sides of the 8-bit boundary, in front of a label x BITS: pass-1 size of the pair == emitted size, label value == real offset",
+		Bounds: map[string]any{"shapes": shapes, "values": vals},
+		Build: func(c *core.Chooser) *core.Case {
+			mode := []int{16, 32}[c.Pick("mode", 2)]
+			sh := shapes[c.Pick("shape", len(shapes))]
+			a := vals[c.Pick("a", len(vals))]
+			b := vals[c.Pick("b", len(vals))]
+			ks := []string{strings.ReplaceAll(sh, "{}", a), strings.ReplaceAll(sh, "{}", b)}
+			if strings.Contains(sh, "[BX+") || strings.Contains(sh, "[SI+") || strings.Contains(sh, "[EBX+") {
+				ks[0] = strings.ReplaceAll(ks[0], "+-", "-")
+				ks[1] = strings.ReplaceAll(ks[1], "+-", "-")
+			}
+			uses := c03Uses(mode)[:3]
+			src := c03Program(mode, 0x7c00, "\tORG 0x7c00\n", "", ks, uses)
+			basesrc := c03Program(mode, 0x7c00, "\tORG 0x7c00\n", "", nil, uses)
+			return &core.Case{
+				Key:  fmt.Sprintf("BITS %d|%s ; %s", mode, ks[0], ks[1]),
+				Feat: feat("mode", fmt.Sprint(mode), "org", "0x7c00", "shape", sh, "a", a, "b", b, "depth", "2", "k1", ks[0], "k2", ks[1]),
+				Srcs: []string{src, basesrc},
+				Judge: c03Judge(mode, 0x7c00, ks, uses, true),
+			}
+		},
+	})
 	// forward uses
 	fwdUses := []string{"MOV AX,lab", "MOV BX,lab", "MOV EAX,lab", "MOV AX,[lab]", "DW lab", "DD lab", "PUSH lab"}
 	scs = append(scs, &core.Scenario{
@@ -367,10 +396,50 @@ func c03Scenarios(tier string) []*core.Scenario {
 	return scs
 }
 
+// c03SizeSweeps re-uses the single-statement spaces of C01 and C02 under C03's oracle: the size
+// pass 1 assigns to the statement (location counter after it) must equal the number of bytes emitted.
+func c03SizeSweeps(tier string) []*core.Scenario {
+	var out []*core.Scenario
+	src := append([]*core.Scenario{}, c01Scenarios(tier)...)
+	src = append(src, c02Scenario("quick"))
+	for _, sc := range src {
+		sc := sc
+		build := sc.Build
+		out = append(out, &core.Scenario{
+			Name: "size_" + sc.Name, Bound: -1,
+			Rule:   "the single-statement space of scenario '" + sc.Name + "' (see C01/C02) under the size oracle: pass-1 location counter after the statement == emitted length; non-trivial = assembled without error and emitted >= 1 byte",
+			Bounds: sc.Bounds,
+			Build: func(c *core.Chooser) *core.Case {
+				cs := build(c)
+				if cs == nil {
+					return nil
+				}
+				cs.Judge = func(rs []*core.Result) core.Verdict {
+					r, base := rs[0], rs[1]
+					v := core.Verdict{}
+					if core.ReportsError(r, base) {
+						v.Outcome = "diagnosed"
+						return v
+					}
+					v.Outcome = "assembled"
+					v.Nontrivial = len(r.Out) > 0
+					if !r.ViaCLI && !r.Died && len(r.Out) > 0 && int(r.LOC) != len(r.Out) {
+						v.Fails = []core.Fail{{Facet: "size_estimate", Dev: fmt.Sprintf("est=%d emit=%d", r.LOC, len(r.Out)),
+							Detail: fmt.Sprintf("pass 1 sized the statement as %d bytes, %d were emitted (% X)", r.LOC, len(r.Out), r.Out)}}
+					}
+					return v
+				}
+				return cs
+			},
+		})
+	}
+	return out
+}
+
 func init() {
 	register(&Property{
 		ID:        "C03",
-		Scenarios: c03Scenarios,
+		Scenarios: func(tier string) []*core.Scenario { return append(c03Scenarios(tier), c03SizeSweeps(tier)...) },
 		Pre: func(r *core.Run, tier string) {
 			x86refSelfCheck(r, tier)
 			c03Drift = knownDriftTable(r.Findings)
